@@ -43,6 +43,9 @@ CLAIMS["C11"] = dict(cat="other", tech="MIR panic-site discharge over the snapsh
 CLAIMS["C13"] = dict(cat="other", tech="dominance / must-pass-through rules on the CFGs of Storage and Manager; MIR panic-site discharge",
    text="The anchored mechanisms as dominance facts: ack_tick = Some(tick) and the stored snapshot are dominated by the Ok edge of read_with_delta and the crc-match edge; UnknownSnap/InvalidCrc returns pass ack_tick = None; the base snapshot is taken only on the tick-equality edge; set_delta_tick/add_snap use the exact base or none; the Manager routes receiver -> delta read -> storage and never touches storage after an error; reachable panic sites are discharged or reviewed.",
    note=TB + "Item-for-item equality with the sender over all loss/duplication histories is a history-level property and is not decided. Known finding: Delta::create (via Storage::add_snap) panics when an item changes its length between snapshots.")
+CLAIMS["C15"] = dict(cat="other", tech="table agreement between writer and reader (MIR switch/constant structure), comparison-strictness agreement, edge-cut dominance for the reader's tick guard, MIR panic-site discharge",
+   text="Chunk header tables agree between ChunkHeader::write and ::read (type codes inverse, size-encoding thresholds never trigger the reader's over-long warnings, inline sizes cannot collide with escape codes, tick flags disjoint from the inline mask, max_tick_delta equals the mask); DemoWriter::write_snap refuses exactly the ticks TickMarker::new's assert rejects (<= vs >) under the checked identification last_tick = prev_tick = last written tick; the reader accepts an absolute tick only above the previous one and adds inline deltas with checked_add; reachable panic sites of reader and writer are discharged or reviewed.",
+   note=TB + "The round trip of chunk sequences and of typed object sets is value-level and not decided. Writer-side payloads above the 64 KiB format maximum panic instead of returning an error (outside the quantifier; recorded in DESIGN).")
 NA = {}
 m = {"version": 1,
      "setup_cmd": "cd /verif/engine/mirfacts && CARGO_NET_OFFLINE=true cargo build --release --offline",
